@@ -309,8 +309,18 @@ def cli_remap_case(sc):
     rc, text, exc = run_inproc(["-a", asm_p, "-p", ptx_p, "-o", out / "x.1.tpf", "--no-write-log"])
     t = {"tid": tid, "cls": "cli/" + cfg, "tn": 1, "td": 1, "naming": "fasta", "valid": 0, "input": tpf_rows(asm_p), "map": [], "haps": [], "style": "cli",
          "status": "ok" if rc == 0 else f"exc:exit{rc}", "out": [], "stats": {"cuts": 0, "breaks": 0, "joins": 0}, "msg": text[-200:]}
+    hap_written = 0
     for f in sorted(out.glob("*.tpf")):
-        for s in tpf_rows(f):
+        scs = tpf_rows(f)
+        if ".haplotigs." in f.name or ".additional_haplotigs." in f.name:
+            hap_written += len(scs)
+        for s in scs:
             t["out"].append({"asm": f.name, "asm_lc": f.name.lower(), "name": s["name"], "rank": 0, "tag": "", "hap": "", "orig": "", "rows": s["rows"]})
+    # the info yaml's haplotig-removal count (read with a regular expression, not with the yaml library the tool itself uses)
+    import re
+    yml = out / "x.1.info.yaml"
+    m = re.search(r"^manual_haplotig_removals:\s*(\d+)\s*$", yml.read_text(), flags=re.M) if yml.exists() else None
+    t["yaml_haplotig_removals"] = int(m.group(1)) if m else -1
+    t["haplotig_scaffolds_written"] = hap_written
     shutil.rmtree(d, ignore_errors=True)
     return t
